@@ -384,7 +384,12 @@ func (m *MutAnalysis) Mutations(fn *ssa.Function, seeds []ssa.Value, chain []str
 						}
 					default:
 						if refLike(x.Type()) {
-							changed = mark(x, derived) || changed
+							if m.returnsFresh(callee) {
+								// fresh container(s); contents may still reference caller memory
+								changed = mark(x, shallow) || changed
+							} else {
+								changed = mark(x, derived) || changed
+							}
 						}
 					}
 				case *ssa.MakeClosure:
@@ -567,4 +572,75 @@ func (m *MutAnalysis) mutationsViaCells(fn *ssa.Function, cellSeeds []ssa.Value,
 		return nil
 	}
 	return m.Mutations(fn, seeds, chain)
+}
+
+// returnsFresh reports whether every reference-like result of fn is, on
+// every return, a container allocated inside fn (make, composite literal,
+// append to such) or nil.
+func (m *MutAnalysis) returnsFresh(fn *ssa.Function) bool {
+	if fn == nil || len(fn.Blocks) == 0 {
+		return false
+	}
+	var fresh func(v ssa.Value, seen map[ssa.Value]bool) bool
+	fresh = func(v ssa.Value, seen map[ssa.Value]bool) bool {
+		if seen[v] {
+			return true
+		}
+		seen[v] = true
+		switch x := v.(type) {
+		case *ssa.Const:
+			return true
+		case *ssa.MakeMap, *ssa.MakeSlice, *ssa.Alloc, *ssa.MakeChan:
+			return true
+		case *ssa.MakeInterface:
+			return fresh(x.X, seen)
+		case *ssa.ChangeType:
+			return fresh(x.X, seen)
+		case *ssa.Slice:
+			return fresh(x.X, seen)
+		case *ssa.Phi:
+			for _, e := range x.Edges {
+				if !fresh(e, seen) {
+					return false
+				}
+			}
+			return true
+		case *ssa.Call:
+			if b, ok := x.Common().Value.(*ssa.Builtin); ok && b.Name() == "append" {
+				return fresh(x.Common().Args[0], seen)
+			}
+			if c := x.Common().StaticCallee(); c != nil && c != fn && m.inModule(c) {
+				return m.returnsFresh(c)
+			}
+			return false
+		case *ssa.Extract:
+			if call, ok := x.Tuple.(*ssa.Call); ok {
+				if c := call.Common().StaticCallee(); c != nil && c != fn && m.inModule(c) {
+					return m.returnsFresh(c)
+				}
+			}
+			return false
+		}
+		return false
+	}
+	for _, b := range fn.Blocks {
+		for _, ins := range b.Instrs {
+			ret, ok := ins.(*ssa.Return)
+			if !ok {
+				continue
+			}
+			for _, r := range ret.Results {
+				if !refLike(r.Type()) {
+					continue
+				}
+				if types.Identical(r.Type(), types.Universe.Lookup("error").Type()) {
+					continue
+				}
+				if !fresh(r, map[ssa.Value]bool{}) {
+					return false
+				}
+			}
+		}
+	}
+	return true
 }
